@@ -49,6 +49,11 @@ func isCloseCall(info *types.Info, c *ast.CallExpr) (recv ast.Expr, kind string,
 	if rn != nil && rn.Obj().Name() == "provider" {
 		return r, "provider", true
 	}
+	// a container closed through its public interface (provider.Close() on a godi.Provider the caller
+	// handed in): what any user of the API may do, not the disposal of an instance
+	if st := info.TypeOf(r); st != nil && (isNamedType(st, modPath, "Provider") || isNamedType(st, modPath, "Scope")) {
+		return r, "container", true
+	}
 	if rt := recvTypeOf(cal); rt != nil {
 		if _, isIface := rt.Underlying().(*types.Interface); isIface {
 			return r, "disposable", true
